@@ -3,7 +3,7 @@ package main
 import "fmt"
 
 // allCmds are the command forms C12/C18/C19 range over.
-var allCmds = []string{"toma", "topa-stdout", "topa-dir", "samvariants", "variants", "variants-stdin", "variants-annoref", "snps", "snps-agg", "closest", "closestn", "updownlist", "topranking"}
+var allCmds = []string{"toma", "topa-stdout", "topa-dir", "samvariants", "variants", "variants-stdin", "variants-annoref", "samvariants-annoref", "snps", "snps-agg", "closest", "closestn", "updownlist", "topranking"}
 
 type caseSize struct {
 	many bool // many tiny records (reaches the 50+threads buffers)
@@ -29,7 +29,11 @@ func genCmdCase(r *Rand, form string, sz caseSize) *Case {
 		lo = 3
 	}
 	switch form {
-	case "toma", "topa-stdout", "topa-dir", "samvariants", "indels":
+	case "toma", "topa-stdout", "topa-dir", "samvariants", "samvariants-annoref", "indels":
+		annoref := form == "samvariants-annoref"
+		if annoref {
+			form = "samvariants"
+		}
 		L := r.Range(6, 40)
 		if sz.many {
 			L = r.Range(6, 12)
@@ -86,6 +90,11 @@ func genCmdCase(r *Rand, form string, sz caseSize) *Case {
 			c.Opts.Aggregate = r.P(0.3)
 			if c.Opts.Aggregate {
 				c.Opts.Threshold = []float64{0, 0.3, 0.5}[r.Intn(3)]
+			}
+			if annoref {
+				// no --reference: the reference is the annotation's own sequence
+				delete(c.Files, "ref")
+				c.Opts.RefFromFile = false
 			}
 		}
 	case "variants", "variants-stdin", "variants-annoref":
